@@ -1,7 +1,8 @@
 --------------------------- MODULE PowerFlowTrace ---------------------------
 (* Implementation -> spec: every state the real Locomotive went through (call by call, and again  *)
 (* through LocomotiveSimulation::walk, where the histories are the trace) is bound to PowerFlow's   *)
-(* variables and PowerFlow's own Level-A predicates are evaluated on it, each by name.              *)
+(* variables - units with and without limit checking (cfg.assert = Locomotive.assert_limits) alike  *)
+(* - and PowerFlow's own Level-A predicates are evaluated on it, each by name.                      *)
 (* A failing conjunct does not block: <<line, case, name>> is appended to `viol` and the state      *)
 (* re-synchronises to the recorded one, so every line of every case is examined in one pass.        *)
 (* Level B (PubOf / SolveOf) is evaluated one step ahead from the previous *recorded* state on      *)
@@ -38,6 +39,12 @@ Stat0 == [cases |-> 0, pubs |-> 0, accepted |-> 0, rejected |-> 0, hist |-> 0, e
           oog_rt_lo |-> 0, oog_rt_hi |-> 0, oog_rs_lo |-> 0, oog_rs_hi |-> 0, oog_rc_lo |-> 0, oog_rc_hi |-> 0,
           \* what the drivers ISSUED, whatever the code under test did with it (the vacuity floors of the group)
           in_conv |-> 0, in_bel |-> 0, in_hyb |-> 0, in_gss |-> 0, in_mapped |-> 0,
+          \* limit checking off (cfg.assert = FALSE): cases, requests, requests above the published limit issued to such units;
+          \* and (outcomes, evidence only) accepted steps of such units with the engine above its transient limit / its rating
+          \* train level: cases driven through SetSpeedTrainSim over a speed trace with non-uniform time steps, their recorded
+          \* steps, those of them that are SHORTER than the step before (where a stale step size would show), failed runs
+          in_train |-> 0, train_steps |-> 0, train_short_after_long |-> 0, train_fail |-> 0,
+          in_nolim |-> 0, in_nolim_fc |-> 0, in_req_nolim |-> 0, in_req_nolim_over |-> 0, nolim_acc |-> 0, nolim_over_tr |-> 0, nolim_over_rating |-> 0,
           in_req |-> 0, in_req_limit |-> 0, in_req_regen |-> 0, in_req_brake |-> 0, in_req_zero |-> 0, in_eng_off |-> 0,
           \* requests issued so as to land outside a map grid: low / high demand on a unit whose grid stops short of 0 / 1
           \* (high: the unit's designed bottleneck), temperature or initial SOC outside the battery grid
@@ -60,6 +67,7 @@ Report(names0) == LET names == SelectSeq(names0, LAMBDA x : x \notin rep /\ (x \
                   /\ nk' = [x \in KnownNames |-> nk[x] + (IF \E k \in 1..Len(names) : names[k] = x THEN 1 ELSE 0)]
 Bump(fs) == stats' = [f \in DOMAIN stats |-> stats[f] + (IF f \in DOMAIN fs THEN fs[f] ELSE 0)]
 B(c) == IF c THEN 1 ELSE 0
+IsTr(r) == IF "tr" \in DOMAIN r THEN r.tr ELSE FALSE      \* a step of a train-level run (SetSpeedTrainSim)
 Note(tag, info) == drifts' = IF Len(drifts) < 8 THEN Append(drifts, [line |-> l, case |-> Rec[l].case, what |-> tag, info |-> info])
                               ELSE drifts
 
@@ -72,6 +80,8 @@ Begin == /\ Rec[l].ev = "begin"
          /\ soc0' = Rec[l].desc.soc0
          /\ Reset(Rec[l]) /\ l0' = l /\ rep' = {}
          /\ Bump([cases |-> 1, in_conv |-> B(cfg'.kind = "conv"), in_bel |-> B(cfg'.kind = "bel"), in_hyb |-> B(cfg'.kind = "hyb"),
+                   in_train |-> B("train" \in DOMAIN Rec[l].desc),
+                   in_nolim |-> B(~cfg'.assert), in_nolim_fc |-> B(~cfg'.assert /\ cfg'.kind # "bel"),
                    in_gss |-> B(cfg'.gssr > 0), in_mapped |-> B(~cfg'.flat)])
          /\ UNCHANGED <<viol, nk, drifts>>
 
@@ -91,7 +101,8 @@ AccChecks == <<
    <<"SocWindow", SocWindow'>> >>
 
 (* requests issued by the driver (call-by-call records only), by class group *)
-LimitCls == {"pubm", "pub", "pubp", "over", "o2", "o4", "o8", "rate", "ratep", "f7", "f8"}
+LimitCls == {"pubm", "pub", "pubp", "over", "o2", "o4", "o8", "dbl", "rate", "ratep", "f7", "f8"}
+OverCls == {"over", "o2", "o4", "o8", "dbl", "rate", "ratep"}
 RegenCls == {"regenm", "regen", "regenp", "r7", "r8"}
 BrakeCls == {"dyn", "dynp", "b1", "b2", "b3", "b4", "b8"}
 LowCls == {"zero", "f0", "f1"}
@@ -106,39 +117,43 @@ InStats(r) == IF r.walk THEN [in_req |-> 0]
                     io_rt_lo |-> B(cfg.rtout < 0), io_rt_hi |-> B(cfg.rtout > 0),
                     io_rs_lo |-> B(HasRes /\ ~cfg.flat /\ 4 * soc0 < cfg.cap), io_rs_hi |-> B(HasRes /\ ~cfg.flat /\ 4 * (soc0 \div 3) > cfg.cap),
                     io_rc_lo |-> B(cfg.bnd = "r" /\ r.cls \in RegenCls \cup BrakeCls), io_rc_hi |-> B(cfg.bnd = "r" /\ r.cls \in LimitCls),
+                    in_req_nolim |-> B(~cfg.assert), in_req_nolim_over |-> B(~cfg.assert /\ r.cls \in OverCls),
                     in_req |-> 1, in_req_limit |-> B(r.cls \in LimitCls), in_req_regen |-> B(r.cls \in RegenCls),
                     in_req_brake |-> B(r.cls \in BrakeCls), in_req_zero |-> B(r.cls \in {"zero", "f0"}), in_eng_off |-> B(~st.eng)]
 
 (* boundary hits: the conjunct's quantity lies within Band below its own limit (or in the tolerance band above it) *)
 Band(lim) == Max2(lim \div 64, 2 * cfg.delta)
 Near(v, lim) == v >= lim - Band(lim)
-AccStats(r) == [accepted |-> B(~r.walk), hist |-> B(r.walk), exact |-> B(ex'), inexact |-> B(~ex'),
+AccStats(r) == [accepted |-> B(~r.walk), hist |-> B(r.walk), train_steps |-> B(IsTr(r)), exact |-> B(ex'), inexact |-> B(~ex'),
                 curtailed |-> B(CurtailClass' /\ r.p.raux < r.p.aux),
                 soc_checked |-> B(cfg.kind # "conv" /\ safe'), eng_off |-> B(~st.eng),
                 regen |-> B(r.p.oute < 0), dynbrk |-> B(r.p.dyn > 0),
                 at_limit |-> B(r.req > 0 /\ r.req >= pub.loco),
+                nolim_acc |-> B(~LimOn), nolim_over_tr |-> B(~LimOn /\ HasFc /\ r.p.brake > pub.fc + Band(pub.fc)),
+                nolim_over_rating |-> B(~LimOn /\ HasFc /\ r.p.brake > cfg.rfc + Band(cfg.rfc)),
                 hyb_acc |-> B(Hyb), hyb_off |-> B(Hyb /\ ~st.eng), hyb_gss |-> B(Hyb /\ cfg.gssr > 0),
-                bh_FcRating |-> B(HasFc /\ Near(r.p.brake, cfg.rfc)),
-                bh_FcTransient |-> B(HasFc /\ Near(r.p.brake, pub.fc)),
-                bh_GenRating |-> B(HasFc /\ Near(r.p.gprop + r.p.gaux, cfg.rgen)),
-                bh_EdrvRating |-> B(Near(Abs(r.p.oute), cfg.redrv)),
-                bh_ResRating |-> B(HasRes /\ Near(Abs(r.p.elec), cfg.rres)),
-                bh_ResDisch |-> B(HasRes /\ r.p.elec > 0 /\ Near(r.p.elec, pub.disch)),
-                bh_ResCharge |-> B(HasRes /\ r.p.elec < 0 /\ Near(-r.p.elec, pub.charge)),
-                bh_LocoPub |-> B((cfg.flat \/ cfg.lpub = 1) /\ r.req > 0 /\ Near(r.p.out, pub.loco)),
+                bh_FcRating |-> B(LimOn /\ HasFc /\ Near(r.p.brake, cfg.rfc)),
+                bh_FcTransient |-> B(LimOn /\ HasFc /\ Near(r.p.brake, pub.fc)),
+                bh_GenRating |-> B(LimOn /\ HasFc /\ Near(r.p.gprop + r.p.gaux, cfg.rgen)),
+                bh_EdrvRating |-> B(LimOn /\ Near(Abs(r.p.oute), cfg.redrv)),
+                bh_ResRating |-> B(LimOn /\ HasRes /\ Near(Abs(r.p.elec), cfg.rres)),
+                bh_ResDisch |-> B(LimOn /\ HasRes /\ r.p.elec > 0 /\ Near(r.p.elec, pub.disch)),
+                bh_ResCharge |-> B(LimOn /\ HasRes /\ r.p.elec < 0 /\ Near(-r.p.elec, pub.charge)),
+                bh_LocoPub |-> B(LimOn /\ (cfg.flat \/ cfg.lpub = 1) /\ r.req > 0 /\ Near(r.p.out, pub.loco)),
                 oog_f_lo |-> B(r.oog.f < 0), oog_f_hi |-> B(r.oog.f > 0), oog_g_lo |-> B(r.oog.g < 0), oog_g_hi |-> B(r.oog.g > 0),
                 oog_e_lo |-> B(r.oog.e < 0), oog_e_hi |-> B(r.oog.e > 0), oog_rt_lo |-> B(r.oog.rt < 0), oog_rt_hi |-> B(r.oog.rt > 0),
                 oog_rs_lo |-> B(r.oog.rs < 0), oog_rs_hi |-> B(r.oog.rs > 0), oog_rc_lo |-> B(r.oog.rc < 0), oog_rc_hi |-> B(r.oog.rc > 0),
-                bh_SocWindow |-> B(HasRes /\ safe' /\ (r.soc <= cfg.smin + (cfg.slo - cfg.smin) \div 16
+                bh_SocWindow |-> B(LimOn /\ HasRes /\ safe' /\ (r.soc <= cfg.smin + (cfg.slo - cfg.smin) \div 16
                                                         \/ r.soc >= cfg.smax - (cfg.smax - cfg.shi) \div 16))]
 (* published limits sitting on a bound of PublishedSane / set by the ramp term of Ramp *)
-PubStats(r) == [bh_Ramp |-> B(HasFc /\ r.pub.fc < cfg.rfc /\ r.pub.fc > cfg.floor),
+PubStats(r) == [bh_Ramp |-> B(LimOn /\ HasFc /\ r.pub.fc < cfg.rfc /\ r.pub.fc > cfg.floor),
                 bh_PublishedSane |-> B(\/ (HasFc /\ (r.pub.fc = cfg.floor \/ r.pub.fc = cfg.rfc \/ r.pub.gen = cfg.rgen))
                                        \/ r.pub.loco = cfg.redrv
                                        \/ (HasRes /\ (r.pub.disch = 0 \/ r.pub.disch = cfg.rres \/ r.pub.charge = 0
                                                        \/ r.pub.charge = cfg.rres \/ r.pub.regen = cfg.redrv)))]
 
-(* set_pwr_aux + set_cur_pwr_max_out (call by call, or as saved in the walk's history) *)
+(* set_pwr_aux + set_cur_pwr_max_out (call by call, as saved in the walk's history, or as left in the unit's state by *)
+(* one step of a SetSpeedTrainSim - dtq is then the step of the speed trace's time column)                            *)
 Pub == /\ Rec[l].ev = "Pub"
        /\ st' = [ZeroSt EXCEPT !.eng = Rec[l].eng, !.dtq = Rec[l].dtq]
        /\ pub' = Rec[l].pub
@@ -148,7 +163,8 @@ Pub == /\ Rec[l].ev = "Pub"
        /\ Report(Names(PubChecks))
        /\ LET chk == cfg.lat /\ ex'
               bad == IF chk THEN pub' # PubOf(cfg, AuxOf(cfg, Rec[l].eng, p.out), p.brake, soc, Rec[l].dtq) ELSE FALSE
-          IN /\ Bump(PubStats(Rec[l]) @@ [pubs |-> 1, b_checked |-> B(chk), drift_pub |-> B(bad)])
+          IN /\ Bump(PubStats(Rec[l]) @@ [train_short_after_long |-> B(IsTr(Rec[l]) /\ n > 0 /\ Rec[l].dtq < st.dtq),
+                                           pubs |-> 1, b_checked |-> B(chk), drift_pub |-> B(bad)])
              /\ IF bad THEN Note("pub", [impl |-> pub', model |-> PubOf(cfg, AuxOf(cfg, Rec[l].eng, p.out), p.brake, soc, Rec[l].dtq)])
                        ELSE UNCHANGED drifts
 
@@ -177,7 +193,7 @@ SolveAcc == /\ Rec[l].ev = "Solve" /\ Rec[l].acc
                    bvl == IF chk THEN (IF m.ok THEN DiffersFrom(m.p, m.chem, Rec[l].walk) ELSE FALSE) ELSE FALSE
                    k   == Rec[l].k
                    cb  == l0 + Rec[l].ref          \* the call-by-call record of the same step (its Pub is the line before)
-                   wd  == IF Rec[l].walk
+                   wd  == IF Rec[l].walk /\ ~IsTr(Rec[l])
                           THEN (IF Rec[cb].ev = "Solve" /\ Rec[cb - 1].ev = "Pub"
                                 THEN \/ Rec[cb].p # p' \/ Rec[cb].e # e' \/ Rec[cb].soc # soc' \/ Rec[cb - 1].pub # pub
                                 ELSE TRUE)
@@ -201,12 +217,13 @@ SolveRej == /\ Rec[l].ev = "Solve" /\ ~Rec[l].acc
                             ELSE UNCHANGED drifts
 
 (* the same accepted steps again, through LocomotiveSimulation::walk *)
-WalkBegin == /\ Rec[l].ev = "WalkBegin"
+WalkBegin == /\ Rec[l].ev \in {"WalkBegin", "TrainBegin"}
              /\ soc0' = soc0 /\ cfg' = cfg /\ Reset(Rec[l])
              /\ UNCHANGED << l0, rep, nk, viol, stats, drifts>>
 
-WalkEnd == /\ Rec[l].ev = "WalkEnd"
-           /\ Bump([walk_fail |-> B(~Rec[l].ok \/ Rec[l].n # Rec[l].want)])
+WalkEnd == /\ Rec[l].ev \in {"WalkEnd", "TrainEnd"}
+           /\ Bump([walk_fail |-> B(Rec[l].ev = "WalkEnd" /\ (~Rec[l].ok \/ Rec[l].n # Rec[l].want)),
+                     train_fail |-> B(Rec[l].ev = "TrainEnd" /\ (~Rec[l].ok \/ Rec[l].n # Rec[l].want))])
            /\ UNCHANGED <<vars, viol, l0, rep, nk, pex, drifts>>
 
 (* a NaN / a value beyond the Q range in a component state, a failed publication, a panic *)
